@@ -487,6 +487,17 @@ func c14World(t *testing.T, r *simcore.Run) any {
 				// length is a multiple of four (NewResponsePacket sizes its buffer without padding)
 				continue
 			}
+			// (a response may answer more fields than this project's client ever asks for: up to
+			// fourteen cookies, which takes the packet beyond the usual 1280 bytes)
+			if tp.Bool(1, 4, "many-cookies") {
+				nresp = 9 + tp.Intn(6, "nresp-many")
+				for len(cookies) < nresp {
+					c := append([]byte(nil), ck...)
+					rand.Read(c)
+					cookies = append(cookies, c)
+				}
+				r.Probe("response-beyond-usual-packet-size")
+			}
 			resp := nts.NewResponsePacket(cookies[:min(nresp, len(cookies))], key, uid)
 			rb := make([]byte, 48)
 			nts.EncodePacket(&rb, &resp)
